@@ -6,6 +6,8 @@ import (
 	"fmt"
 	"testing"
 
+	"github.com/cloudwego/gopkg/protocol/thrift/base"
+
 	"github.com/cloudwego/gopkg/bufiox"
 	"github.com/cloudwego/gopkg/protocol/thrift"
 	"github.com/cloudwego/gopkg/verifharness/evid"
@@ -25,6 +27,7 @@ type MsgCase struct {
 	Cut     int          `json:"cut"`            // -1: none; else decode the strict prefix of this length
 	Plan    faultio.Plan `json:"plan"`
 	Payload *FCCase      `json:"payload,omitempty"`
+	Empty   bool         `json:"empty_payload,omitempty"` // marshal a struct without fields (a lone STOP byte)
 }
 
 func refMsgHeader(name string, typ int32, seq int32) []byte {
@@ -64,6 +67,9 @@ func checkMsg(c MsgCase, cv *cov) (v *evid.Violation) {
 			v = evid.Failf("AppendMessageBegin output %s differs from the header %s", hx(ap[3:]), hx(want))
 			return
 		}
+		// a pooled stream writer that has seen a failing connection goes back to the pool first; the writer
+		// obtained next (very likely the same object) serves a healthy connection and must work
+		poisonBufferWriterPool()
 		sink := &faultio.ScriptWriter{}
 		bw := bufiox.NewDefaultWriter(sink)
 		w := thrift.NewBufferWriter(bw)
@@ -153,6 +159,20 @@ func checkMsg(c MsgCase, cv *cov) (v *evid.Violation) {
 			}
 		}
 		r.Recycle()
+		// a payload struct without any field
+		if c.Empty && c.Word == nil && c.Cut < 0 && name != "" && c.Type != thrift.EXCEPTION {
+			msg, err := thrift.MarshalFastMsg(name, c.Type, c.Seq, (*base.Base)(nil))
+			if err != nil || len(msg) != len(want)+1 {
+				v = evid.Failf("MarshalFastMsg with an empty struct: %d bytes, err=%v; want header(%d)+1", len(msg), err, len(want))
+				return
+			}
+			var out base.Base
+			m, seq, err := thrift.UnmarshalFastMsg(msg, &out)
+			if err != nil || m != name || seq != c.Seq || out.LogID != "" || out.Extra != nil {
+				v = evid.Failf("UnmarshalFastMsg of a %d-byte message (method of %d bytes, payload = lone STOP) returned (method eq=%v, seq %d, err %v)", len(msg), len(name), m == name, seq, err)
+				return
+			}
+		}
 		// marshal / unmarshal of whole messages
 		if c.Payload != nil && c.Word == nil && c.Cut < 0 {
 			pm := c.Payload.model()
@@ -242,6 +262,9 @@ func genMsgCase(t *rapid.T) MsgCase {
 	case 1:
 		hl := 12 + c.Name.L
 		c.Cut = rapid.IntRange(0, hl-1).Draw(t, "cut")
+	case 4:
+		c.Empty = true
+		c.Name.L = rapid.IntRange(1, 6).Draw(t, "shortName")
 	case 2, 3:
 		p := genFCCase(t)
 		p.Gaps, p.Perm, p.Trailer = nil, nil, nil
@@ -311,4 +334,16 @@ func TestC12_Sweeps(t *testing.T) {
 	rec.Sample(MsgCase{Name: PStr{L: 3, S: 1}, Type: 1, Seq: 9, Word: &w, Cut: -1, Plan: plans[0]})
 	rec.Sample(MsgCase{Name: PStr{L: 14, S: 7}, Type: 2, Seq: -5, Cut: 17, Plan: plans[2]})
 	rec.SetExhaustive()
+}
+
+// poisonBufferWriterPool runs a BufferWriter over a bufiox writer whose sink has failed and recycles it.
+func poisonBufferWriterPool() {
+	fs := &faultio.ScriptWriter{FailAt: 1}
+	fw := bufiox.NewDefaultWriter(fs)
+	pw := thrift.NewBufferWriter(fw)
+	_ = pw.WriteI32(1)
+	_ = fw.Flush() // fails; the bufiox writer keeps the error
+	_ = pw.WriteMessageBegin("x", 1, 1)
+	_ = pw.WriteString("y")
+	pw.Recycle()
 }
